@@ -14,7 +14,9 @@ Inductive key : Type := KS (s : list N) | KI (i : Z).
 Inductive leaf : Type :=
 | LNone | LBool (b : bool) | LInt (z : Z) | LStr (s : list N) | LMissing | LOpq (oid tag : N) | LJunk.
 Inductive kind : Type := KDict | KList | KObj (cls : N).
-Record flags : Type := mkFlags { f_sealed : bool; f_aw : bool; f_partial : bool }.
+(* f_spec: an opaque reference to the value spec bound to the node (0 = none); SymCore only carries it along
+   (copied by clone, kept by moves, set by literals) -- its meaning belongs to the typed extension (C03) *)
+Record flags : Type := mkFlags { f_sealed : bool; f_aw : bool; f_partial : bool; f_spec : N }.
 
 Inductive node : Type :=
 | Leaf (l : leaf)
@@ -159,7 +161,7 @@ Fixpoint seal_rec (b : bool) (n : node) : node :=
   match n with
   | Leaf l => Leaf l
   | Node i k pa pt fl its =>
-      Node i k pa pt (mkFlags b (f_aw fl) (f_partial fl)) (map (fun kv => (fst kv, seal_rec b (snd kv))) its)
+      Node i k pa pt (mkFlags b (f_aw fl) (f_partial fl) (f_spec fl)) (map (fun kv => (fst kv, seal_rec b (snd kv))) its)
   end.
 
 (* --- positions --------------------------------------------------------------------------------------- *)
@@ -314,7 +316,7 @@ Fixpoint build (ctx_partial : bool) (pa : option N) (p : list key) (l : lit) (nx
   match l with
   | LitLeaf lf => (Leaf lf, nx)
   | LitNode k fl plain its =>
-      let fl' := if plain then mkFlags false true ctx_partial else fl in
+      let fl' := if plain then mkFlags false true ctx_partial 0 else fl in
       let me := nx in
       let '(its', nx') :=
         (fix go (l : list (key * lit)) (i : Z) (nx : N) : list (key * node) * N :=
